@@ -161,6 +161,14 @@ def check(ctx, case):
                 same = (got & 0xFFFFFFFF) == want
             else:
                 same = got == want
+                if not same and case.kind == "subset" and any(t == ("s", "float") for t, _ in f.params):
+                    # an integer result computed from float comparisons: single-precision rounding of the
+                    # operands can legitimately flip `==` / `<`; the step-wise f32 evaluation decides
+                    ret_stmt = f.body.stmts[-1]
+                    exact32 = eval_f32(ret_stmt.e, args) if hasattr(ret_stmt, "e") else None
+                    if exact32 is not None and got == exact32:
+                        same = True
+                        ctx.label("int-agreement-by-stepwise-f32-evaluation")
             if not same:
                 ctx.fail("different-value|" + case.kind.split(":")[0], "%s: wasm returns %r, the VM returns %r\n%s" % (inp, got, want, src), case)
                 return
